@@ -713,7 +713,7 @@ func c16GuardedWork(e *c16Env, index, q string) (res interface{}, runaway bool) 
 		if spin%8 == 0 {
 			runtime.ReadMemStats(&ms)
 			if ms.Mallocs-start > c16WorkBound {
-				for _, f := range []string{"a", "b"} {
+				for _, f := range []string{"a", "b", "c"} {
 					for sh := uint64(0); sh < 3; sh++ {
 						if fr := e.srv.holder.fragment(index, f, viewStandard, sh); fr != nil {
 							fr.mu.Lock() // never released: parks the spinning iterator
@@ -1672,9 +1672,140 @@ func c16Part3(c *vx.Check) {
 	}, nil)
 }
 
+// ---------------------------------------------------------------------------------------------
+// Part 4: GroupBy over THREE distinct fields, paged across shards whose row sets differ.
+// The group iterator of a shard wraps a middle field when the cursor row is beyond the last row that
+// field has in THIS shard; that only happens with >= 3 children, >= 2 shards with different rows,
+// and a `previous` cursor taken from another shard's groups. Datasets: every subset of
+// {a,b,c} x rows {0,1} x shards (one column per shard; thorough: also row 2 of the middle field in
+// shard 0 and of the last field in shard 1); on each: the unpaged answer, and paging loops limit+previous and
+// limit+offset with page sizes 1..3 run to exhaustion, concatenated == unpaged, every page also
+// compared with the model's page.
+func c16Part4(c *vx.Check) {
+	var cand []c16Bit
+	for sh := uint64(0); sh < 2; sh++ {
+		for _, f := range []string{"a", "b", "c"} {
+			for row := uint64(0); row < 2; row++ {
+				cand = append(cand, c16Bit{f, row, sh * c16SW})
+			}
+		}
+	}
+	if c.Thorough() {
+		cand = append(cand, c16Bit{"b", 2, 0}, c16Bit{"c", 2, c16SW})
+	}
+	n := 1 << uint(len(cand))
+	c.Bound("part4_datasets", n)
+	chunk := 16
+	c.ProcFor(c.NextRunLabel(), (n+chunk-1)/chunk, nil, func(_ []byte, ci int, _ func([]byte)) {
+		for mask := ci * chunk; mask < (ci+1)*chunk && mask < n; mask++ {
+			if c.Expired() {
+				return
+			}
+			if !c16Part4One(c, cand, mask) {
+				return
+			}
+		}
+	}, nil)
+}
+
+func c16Part4One(c *vx.Check, cand []c16Bit, mask int) (alive bool) {
+	e := c16GetEnv()
+	index := e.newIndex(false)
+	if _, err := e.api.CreateField(context.Background(), index, "c", OptFieldTypeSet(CacheTypeNone, 0)); err != nil {
+		panic(fmt.Sprintf("c16: CreateField c: %v", err))
+	}
+	alive = true
+	defer func() {
+		if alive {
+			e.dropIndex(index)
+			c16PutEnv(e)
+		}
+	}()
+	m := c16NewModel()
+	var desc []string
+	for k, b := range cand {
+		if mask&(1<<uint(k)) == 0 {
+			continue
+		}
+		if err := c16Write(e, index, m, b, true); err != nil {
+			c.Violate("write refused", fmt.Sprint(desc), err.Error(), "<nil>")
+			return
+		}
+		desc = append(desc, fmt.Sprintf("%s%d@%d", b.f, b.row, b.col))
+	}
+	ds := fmt.Sprintf("three-field bits=%v", desc)
+	base := c16GB{kids: []c16RowsArgs{{f: "a"}, {f: "b"}, {f: "c"}}}
+	full := base.all(m)
+	run := func(g c16GB) ([]c16Group, bool) {
+		res, runaway := c16GuardedWork(e, index, g.pql())
+		c.AddEval(1)
+		if runaway {
+			c16Abandon(e)
+			alive = false
+			c.Violate(c16KGBLoop, ds+" query="+g.pql(), fmt.Sprintf("no result after %d heap allocations", c16WorkBound), "a page")
+			return nil, false
+		}
+		if er, isErr := res.(error); isErr {
+			c.Violate("GroupBy three fields: query failed", ds+" query="+g.pql(), er.Error(), "ok")
+			return nil, false
+		}
+		page, _ := c16GotGroups(res)
+		return page, true
+	}
+	got, ok := run(base)
+	if !ok {
+		return
+	}
+	if gs, ws := c16Groups(got), c16Groups(full); gs != ws {
+		c.Violate("GroupBy three fields unpaged: wrong groups", ds+" query="+base.pql(), gs, ws)
+		return
+	}
+	for L := 1; L <= 3; L++ {
+		for _, how := range []string{"previous", "offset"} {
+			g := base
+			g.kids = append([]c16RowsArgs(nil), base.kids...)
+			g.hasLimit, g.limit = true, L
+			var cat []c16Group
+			off := 0
+			for pages := 0; pages < 40; pages++ {
+				page, ok := run(g)
+				if !ok {
+					return
+				}
+				if gs, ws := c16Groups(page), c16Groups(g.eval(m)); gs != ws {
+					c.Violate("GroupBy three fields paging limit+"+how+": wrong page", ds+" query="+g.pql(), gs, ws)
+					return
+				}
+				if len(page) == 0 {
+					break
+				}
+				cat = append(cat, page...)
+				if how == "previous" {
+					last := page[len(page)-1].rows
+					for i := range g.kids {
+						g.kids[i].hasPrev, g.kids[i].prev = true, last[i]
+					}
+				} else {
+					off += L
+					g.hasOffset, g.offset = true, off
+				}
+			}
+			if gs, ws := c16Groups(cat), c16Groups(full); gs != ws {
+				c.Violate("GroupBy three fields paging limit+"+how+": concatenated pages differ from the unpaged list", fmt.Sprintf("%s limit=%d", ds, L), gs, ws)
+				return
+			}
+		}
+	}
+	if mask != 0 {
+		c.Distinct(ds)
+	}
+	c.Outcome(fmt.Sprintf("three-field groups=%d", len(full)))
+	return
+}
+
 func TestVerif_C16(t *testing.T) {
 	c := vx.NewCheck("C16", "exploration",
-		"datasets (every subset of the candidate bits of two set fields over three shards x treatment of two ghost bits x write path) x every Rows(previous x limit x column), MinRow/MaxRow(filter), GroupBy(children x limit x offset x filter x child limit/column) call, paging loops run to exhaustion; time field: every subset of timestamped bits x from/to x limit x previous x column; oracle = sorted distinct non-empty rows / exact cross-product counts / concatenated pages == unpaged; distinct = distinct non-empty datasets")
+		"datasets (every subset of the candidate bits of two set fields over three shards x treatment of two ghost bits x write path) x every Rows(previous x limit x column), MinRow/MaxRow(filter), GroupBy(children x limit x offset x filter x child limit/column) call, paging loops run to exhaustion; time field: every subset of timestamped bits x from/to x limit x previous x column; three-field GroupBy: every subset of {a,b,c} x rows x shards bits x paging loops (previous, offset; page sizes 1..3), every page compared with the model; oracle = sorted distinct non-empty rows / exact cross-product counts / concatenated pages == unpaged; distinct = distinct non-empty datasets")
 	defer c16CloseAll()
 	nb := c.Pick(6, 8)
 	c.Bound("candidate_bits", nb)
@@ -1686,6 +1817,7 @@ func TestVerif_C16(t *testing.T) {
 	c16Part1(c, nb, wrapKnown, loopKnown)
 	c16Part2(c)
 	c16Part3(c)
+	c16Part4(c)
 	c.Assume("single node, executor worker pool of 1; rows 0..3(4), three shards; GroupBy `previous` only as the cursor taken from the last group of a page (as documented)")
 	if c.Finish() != 0 {
 		t.Fail()
